@@ -25,7 +25,10 @@ ASSUME = [
 DP_PATHS = ["arc", "clone_last", "raw", "unique", "offset", "union1", "union2", "dyn", "hs", "slice", "thin"]
 
 
-def drop_panic_pass(ctx, prop="C05"):
+UNINIT_DP_PATHS = ["hsu_drop", "hsu_init", "mu_drop", "mu_init"]
+
+
+def drop_panic_pass(ctx, prop="C05", paths=None):
     """the last handle is released while a payload destructor panics: through every handle kind the
     block must still go back to the allocator exactly once with its request layout (in the model the
     release emits the dealloc event unconditionally: `C01_destructor_with_release` / `decr_log`)."""
@@ -34,16 +37,16 @@ def drop_panic_pass(ctx, prop="C05"):
     exe, out = common.cargo_build_bin(ctx, "uninit")
     if exe is None:
         return
-    lines = ["dp %s %s" % (p, w) for p in DP_PATHS for w in ("none", "hdr", "el")]
+    lines = ["dp %s %s" % (p, w) for p in (paths or DP_PATHS) for w in ("none", "hdr", "el")]
     pr = subprocess.run([exe], input="\n".join(lines) + "\n", capture_output=True, text=True, timeout=120)
     outs = pr.stdout.split("\n")
     bad = []
     for k, ln in enumerate(lines):
         o = dict(x.split("=", 1) for x in (outs[k].split() if k < len(outs) and outs[k] else ["st=missing"]))
         _, path, which = ln.split()
-        has_hdr = path in ("hs", "thin")
-        n_el = 3 if path in ("hs", "slice", "thin") else 1
-        want_st = "panic" if which == "el" or (which == "hdr" and has_hdr) else "ok"
+        has_hdr = path in ("hs", "thin", "hsu_drop", "hsu_init")
+        n_el = 3 if path in ("hs", "slice", "thin", "hsu_init") else (0 if path in ("hsu_drop", "mu_drop") else 1)
+        want_st = "panic" if (which == "el" and n_el > 0) or (which == "hdr" and has_hdr) else "ok"
         why = []
         if o.get("st") != want_st:
             why.append("status %s, expected %s" % (o.get("st"), want_st))
@@ -60,7 +63,7 @@ def drop_panic_pass(ctx, prop="C05"):
     if pr.returncode != 0:
         bad.append(("(whole sweep)", "exit status %s" % pr.returncode, ["the harness process died: " + pr.stderr[-300:]]))
     ctx.oblige("faults:release-with-panicking-destructor", not bad, "%d failing" % len(bad))
-    ctx.coverage["destructor_panic_sweep"] = {"cases": len(lines), "failures": len(bad), "sample": {"case": lines[26], "impl": outs[26] if len(outs) > 26 else ""}}
+    ctx.coverage["destructor_panic_sweep"] = {"cases": len(lines), "failures": len(bad), "sample": {"case": lines[len(lines) // 2], "impl": outs[len(lines) // 2] if len(outs) > len(lines) // 2 else ""}}
     ctx.coverage["evaluations"] = ctx.coverage.get("evaluations", 0) + len(lines)
     if bad:
         body = ["last handle released while a payload destructor panics (caught by catch_unwind); the tracking allocator's view:", ""]
